@@ -339,7 +339,7 @@ C('als_func._optimize_core',
 
 # ---------------------------------------------------------------------------------------------------------- anova
 _AN = 'anova.ANOVA.'
-C(_AN + '__init__', params={'order': 'num'}, seeded=True, modifies={'self': 'cont'}, io=True, returns='none',
+C(_AN + '__init__', params={'order': 'num', 'I_trn': 'like2|none', 'y_trn': 'like1|none'}, seeded=True, modifies={'self': 'cont'}, io=True, returns='none',
   licence='constructor; fpath loads a pickled model (documented)')
 C(_AN + '__call__', params={'I': 'like'}, returns='num|arr1')
 C(_AN + '__getitem__', params={'I': 'like'}, returns='num|arr1')
@@ -362,7 +362,7 @@ C(_AN + 'max', returns='tuple(num,list(num|none))')
 C(_AN + 'pair_num_to_num', params={'x1': 'num', 'x2': 'num'}, returns='num')
 C(_AN + 'sample', params={'xi': 'num|none', 'eps': 'num'}, rng=('self',), returns='list(num)')
 C(_AN + 'save', io=True, returns='none', licence='documented fpath feature')
-C('anova.anova', params={'r': 'num', 'order': 'num'}, seeded=True, io=True, returns='list(arr3)')
+C('anova.anova', params={'r': 'num', 'order': 'num', 'I_trn': 'like2|none', 'y_trn': 'like1|none'}, seeded=True, io=True, returns='list(arr3)')
 C('anova._core_one', params={'n': 'num', 'r': 'num'}, returns='arr')
 C('anova._second_order_2_tt', params={'A': 'arr2', 'i': 'num', 'j': 'num', 'shapes': 'arr1'}, returns='list(arr3)')
 
